@@ -15,8 +15,9 @@ for e in "$@"; do
   if [ $? -ne 0 ]; then echo "$tag BUILD-FAILED $(grep -E '^error' $VERIF_TARGET/build.log | head -2 | tr '\n' ' ' | cut -c1-200)" >> $OUT; continue; fi
   line="$tag"
   for id in $ids; do
+    tier=quick; case $id in *@t) tier=thorough; id=${id%@t};; esac
     case $id in C05|C17) bin=$VERIF_TARGET/sched/release/fp_sched_checks;; *) bin=$VERIF_TARGET/plain/release/fp_checks;; esac
-    out=$(cd /verif && timeout 900 $bin $id --tier quick 2>/dev/null); rc=$?
+    out=$(cd /verif && timeout 1800 $bin $id --tier $tier 2>/dev/null); rc=$?
     sig=$(echo "$out" | grep -E "^  signature:" | head -3 | sed 's/  signature: //' | tr '\n' ' ')
     line="$line | $id=$rc $sig"
   done
